@@ -132,6 +132,22 @@ def do_scalars(rec, hub, U, la, rng):
                 rec.violation("scalar-results", f"whole-number-operation:result-dimensions:{kind}", {"op": opn, "got": list(r.dims.letters)})
             elif not all(float(g) == float(e_) and (got.dtype.kind not in "iu" or int(g) == int(e_)) for g, e_ in zip(got.reshape(-1).tolist(), np.asarray(exp, dtype=object).reshape(-1).tolist())):
                 rec.violation("scalar-results", f"whole-number-operation:wrong-entries:{kind}:{opn}", {"dtype": str(va.dtype), "result_dtype": str(got.dtype), "observed": [float(q) for q in got.reshape(-1)[:3]], "expected": [int(q) for q in np.asarray(exp, dtype=object).reshape(-1)[:3]], "same_order": lb_ == tuple(la)})
+    # one array OBJECT used again after its values were written directly (x.values[...] = ..., the documented way): results follow
+    # the values it holds at the time of each operation
+    if len(la) >= 2:
+        xo = fd.FlodymArray(dims=gen.dimset(fd, U, la), values=gen.values_one("dyadic", rng, sx))
+        yo = fd.FlodymArray(dims=gen.dimset(fd, U, la[:1]), values=gen.values_one("dyadic", rng, gen.shape_of(U, la[:1])))
+        for rnd in range(3):
+            for f in (lambda: xo + yo, lambda: yo - xo, lambda: xo.minimum(yo), lambda: xo * yo, lambda: xo + xo.sum_to(la[1:])):
+                try:
+                    f()
+                except Exception:
+                    pass
+            if rnd == 0:
+                xo.values[...] = gen.values_one("dyadic", rng, sx)
+            else:
+                xo.values[tuple(0 for _ in sx)] += 8.0
+                yo.values[...] = yo.values * 2.0
     # subclasses (Parameter, StockArray, Flow) follow the same rules
     vq = gen.values_one("dyadic", rng, sx)
     par = fd.Parameter(dims=gen.dimset(fd, U, la), values=vq.copy(), name="par")
